@@ -148,7 +148,11 @@ func runCase(spec *ChildSpec) *Result {
 	var pc *replication.PrimaryConfig
 	if c.FastHeartbeat {
 		pc = replication.DefaultPrimaryConfig()
-		pc.HeartbeatConfig = &replication.HeartbeatConfig{Interval: 200 * time.Millisecond, Timeout: time.Second, SendEmptyResponses: true}
+		to := time.Second
+		if c.HBTimeoutMs > 0 {
+			to = time.Duration(c.HBTimeoutMs) * time.Millisecond
+		}
+		pc.HeartbeatConfig = &replication.HeartbeatConfig{Interval: 200 * time.Millisecond, Timeout: to, SendEmptyResponses: !c.HBNoEmpty}
 	}
 	prim, err := startPrimary(mkdir(spec.Base, "primary"), c.PCfg, pc)
 	if err != nil {
@@ -375,6 +379,15 @@ func cause(c *Case, res *Result, idx int) string {
 		}
 	}
 	add(bulk, "bulk")
+	huge := false
+	for _, ph := range c.Phases {
+		for _, o := range ph.Ops {
+			if o.Op == "put" && o.V.Len >= 260<<10 {
+				huge = true
+			}
+		}
+	}
+	add(huge, "hugevalue")
 	add(c.Shape == "aged_burst", "agedburst")
 	add(c.Shape == "aged_burst" && c.FastHeartbeat, "fasthb")
 	if idx >= 0 && idx < len(c.Replicas) {
